@@ -9,13 +9,24 @@
     2  `C09_layerB_not_hidden`
     3  `C09_layerB_deadline_moves_only_by_upsert_or_put` (+ `…_run`)
     4  `C09_layerB_no_ttl_never_expires` (+ `C09_layerB_advance_keeps_store`, `…_run`)
-    5  `C09_layerB_sweep_irrelevant_for_reads` (the TRUE form), `C09_layerB_sweep_removes_only_visited_due` (with the
-       history), and the two concrete runs that refute the naive form:
-       `C09_layerB_sweep_removes_revived_key` (the "second race" of Sweep.lean) and
-       `C09_layerB_extension_race_loses_key` — a key that was NEVER expired, whose time-to-live is being extended, is
-       removed by the sweeper and reads as absent long before its deadline: a FINDING, see there.
+    5  `C09_layerB_sweep_irrelevant_for_reads` (one action, no history), `C09_layerB_sweep_removes_only_visited_due`
+       (with the history: the index was due at the visit), and — what fix 36c87dc (the ticker re-validates against the
+       store at `kw.remove`) buys —
+         `C09_layerB_sweeper_never_hides_unexpired`   (the check: an entry that carries the id and has not expired by its
+                                                       OWN deadline is left alone, the sweeper moves on),
+         `C09_layerB_eviction_passed_check`           (an eviction under way has passed that check, any interleaving),
+         `C09_layerB_sweep_hides_only_revived`        (the FULL form of (10): a sweeper action changes the answer of a
+                                                       lookup only by removing an entry that HAD expired by its own
+                                                       deadline at the check and was rewritten by a `put_or_update`
+                                                       between the check and the removal — known finding D3),
+         `C09_layerB_sweep_irrelevant_without_upsert` (hence the naive form, for a key nobody upserts).
     6  concrete runs (non-vacuity): a TTL key read at its deadline exactly and one nanosecond later, with the sweeper
-       interleaved; an upsert extending / removing the deadline; the deadline of a new incarnation.
+       interleaved; an upsert extending / removing the deadline; the deadline of a new incarnation; and the runs of the
+       two former races: `C09_layerB_sweep_keeps_revived_key` (revival BEFORE the check: kept),
+       `C09_layerB_sweep_removes_revived_key` (revival between the check and `store.remove`: still lost, D3),
+       `C09_layerB_extension_race_keeps_key` (D13 REPAIRED: the run of the former finding
+       `C09_layerB_extension_race_loses_key` — a key that was never expired, whose time-to-live is being extended —
+       now keeps the key).
 -/
 import CachedProofs.LayerB.Upsert
 import CachedProofs.LayerB.Sweep
@@ -339,15 +350,18 @@ theorem C09_layerB_no_ttl_never_expires_run {cfg : Cfg} {now : Nat} {seeds : Lis
 
 /-! ## 5  the sweeper and the reads -/
 
-/-- **C09 (10): what a sweeper action can do to the outcome of a lookup — the TRUE form.**  A sweeper action never
+/-- **C09 (10): what ONE sweeper action can do to the outcome of a lookup (no history).**  A sweeper action never
     moves the clock, and for every key `k` it leaves the answer of a lookup of `k` (`expB_lookup`) as it is, with ONE
-    exception: the `store.remove` that ends the eviction of the id of `k`'s entry (an eviction the sweeper started when
-    it visited that id and found the deadline THE INDEX held for it passed) removes the entry although it is alive
+    exception: the `store.remove` that ends the eviction of the id of `k`'s entry removes the entry although it is alive
     now.  Then the sweeper stood at `store.remove` of exactly this id, charged for exactly this key; the time it
     compared with is not ahead of the clock; the id's index entry is gone; afterwards the key is absent.
     So: a sweeper action never turns a miss into a hit, never changes the value found, never hides a key whose id it is
-    not evicting — but it is NOT true that it never hides an alive key: `C09_layerB_sweep_removes_revived_key` and
-    `C09_layerB_extension_race_loses_key` below are reachable states in which the exception happens. -/
+    not evicting.  WHEN the exception can happen is said by the history (`C09_layerB_sweep_hides_only_revived` below):
+    since fix 36c87dc only if the entry had expired by its OWN stored deadline when the sweeper's `kw.remove` action
+    (the check) ran, and a `put_or_update` rewrote it between that action and this removal (known finding D3: an upsert
+    of an expired-but-unswept entry revives it in place) — `C09_layerB_sweep_removes_revived_key` is such a run.  The
+    other run that used to reach the exception, the extension race D13, no longer does:
+    `C09_layerB_extension_race_keeps_key`. -/
 theorem C09_layerB_sweep_irrelevant_for_reads {cfg : Cfg} {now0 : Nat} {seeds : List Nat} {clients : Nat}
     {b b' : BState} {v : Option Nat} {o o' : Oracle} (hr : Reach cfg now0 seeds clients b)
     (h : stepB b (.sweeper v) o = .ok (b', o')) (k : Nat) :
@@ -455,8 +469,8 @@ theorem expB_swInv_run {cfg : Cfg} {now0 : Nat} {seeds : List Nat} {clients : Na
     an eviction (e.g. the initial state): if a sweeper action changes the answer of a lookup of `k`, it is the
     `store.remove` of the eviction of the id of `k`'s (alive) entry, and the history holds the sweeper's VISIT of that
     id, at which the index held for it a deadline `e` that had passed: `e < now ≤ clock`.  The sweeper hides a key only
-    if the deadline THE INDEX held for its id was due at the visit — the deadline the STORED entry carries now may be
-    another one (moved by a `put_or_update` whose index update had not run yet, or ran later). -/
+    if the deadline THE INDEX held for its id was due at the visit.  (This is the part that was true before fix 36c87dc
+    as well; about the deadline the STORED entry carried see `C09_layerB_sweep_hides_only_revived`.) -/
 theorem C09_layerB_sweep_removes_only_visited_due {cfg : Cfg} {now0 : Nat} {seeds : List Nat} {clients : Nat}
     {b0 b b' : BState} {h : List (BState × Act)} {v : Option Nat} {o o' : Oracle}
     (hr : Reach cfg now0 seeds clients b0) (hrun : RunH b0 h b) (h0 : expB_SwInv [] b0.sw)
@@ -469,6 +483,129 @@ theorem C09_layerB_sweep_removes_only_visited_due {cfg : Cfg} {now0 : Nat} {seed
   · have hinv := expB_swInv_run hr hrun h0
     rw [hsw] at hinv
     exact ⟨now, sh, rest, e, wk, hsw, hkey, hk, ha, hnone, hinv⟩
+
+/-! ### what fix 36c87dc buys: the sweeper re-validates against the store at `kw.remove` -/
+
+/-- **C09 (11): the sweeper never hides a key that has not expired by its own deadline — the check.**  The sweeper
+    stands at `kw.remove` of the eviction of `id` (it found the deadline THE INDEX held for `id` passed); `id` is
+    charged for key `wk.key`.  If IN THIS STATE the entry stored under that key carries `id` and has NOT expired by its
+    own deadline (it has none, or `now ≤ deadline` — whatever the index said, whoever moved the stored deadline, whether
+    or not that `put_or_update` has brought the index up to date), then this sweeper action — whatever the other
+    threads did before it, the statement is about ANY state — abandons the eviction: the sweeper moves on to the next
+    listed entry or to `sweep.end`, NOTHING of the shared state changes: the entry stays stored, the id stays charged,
+    the total is untouched, every lookup of every key answers as before.  (No `wu.sub`, no `store.remove` of this
+    eviction ever runs: `C09_layerB_eviction_passed_check`.) -/
+theorem C09_layerB_sweeper_never_hides_unexpired {b b' : BState} {v : Option Nat} {o o' : Oracle} {now sh id : Nat}
+    {rest : List (Nat × Nat)} {wk : WKey} {e : Entry}
+    (hs : b.sw = .kwRemove now sh rest id) (hkw : b.g.adm.kw.get? id = some wk)
+    (hk : b.g.store.get? wk.key = some e) (hid : e.id = id)
+    (hlive : e.expiry = none ∨ ∃ t, e.expiry = some t ∧ b.g.now ≤ t)
+    (h : stepB b (.sweeper v) o = .ok (b', o')) :
+    b' = sweepNext b now sh rest ∧ b'.g = b.g ∧
+    ((b'.sw = .entry now sh rest ∧ rest ≠ []) ∨ (b'.sw = .fin ∧ rest = [])) ∧
+    b'.g.store.get? wk.key = some e ∧ b'.g.adm.kw.get? id = some wk ∧ b'.g.adm.used = b.g.adm.used ∧
+    b'.wuOwner = b.wuOwner ∧ ∀ k, expB_lookup b'.g k = expB_lookup b.g k := by
+  have hu : unexpiredWithId b.g wk.key id = true := by
+    rw [unexpiredWithId_eq_true_iff]
+    refine ⟨e, hk, hid, fun t ht hgt => ?_⟩
+    rcases hlive with h0 | ⟨t', h1, hle⟩
+    · rw [h0] at ht; cases ht
+    · rw [h1] at ht; cases ht; omega
+  obtain ⟨hb', hg, hwu, hsw⟩ := C10_layerB_skip_harmless hs hkw hu (swB_sweeper_step h)
+  exact ⟨hb', hg, hsw, by rw [hg]; exact hk, by rw [hg]; exact hkw, by rw [hg], hwu, fun k => by rw [hg]⟩
+
+/-- … and when the id is not charged at all the sweeper moves on as well (`C10_layerB_stale_harmless`): so whenever the
+    sweeper's `kw.remove` action does NOT move on, the id was charged and NO entry stored under the charge's key with
+    this id was unexpired — every such entry carried a deadline the clock had passed. -/
+theorem C09_layerB_kwRemove_goes_on_only_if_expired {b b' : BState} {v : Option Nat} {o o' : Oracle} {now sh id : Nat}
+    {rest : List (Nat × Nat)} (hs : b.sw = .kwRemove now sh rest id) (h : stepB b (.sweeper v) o = .ok (b', o'))
+    (hne : b' ≠ sweepNext b now sh rest) :
+    ∃ wk, b.g.adm.kw.get? id = some wk ∧ b'.sw = .sub now sh rest id wk ∧
+      ∀ e, b.g.store.get? wk.key = some e → e.id = id → ∃ t, e.expiry = some t ∧ b.g.now > t := by
+  rcases swB_kwRemove_spec hs (swB_sweeper_step h) with ⟨wk, ⟨hk, hu⟩, rfl⟩ | ⟨_, hb'⟩
+  · exact ⟨wk, hk, rfl, (unexpiredWithId_eq_false_iff _ _ _).mp hu⟩
+  · exact absurd hb' hne
+
+/-- **C09 (11), for all interleavings: an eviction under way has passed the check.**  Along any run (history `h`,
+    latest first) from a reachable state in which the sweeper is not in the middle of an eviction (e.g. the initial
+    state): whenever the sweeper stands at `wu.sub` or at `store.remove` of the eviction of `id` with the charge `wk`,
+    the history holds the sweeper's OWN `kw.remove` action `p` of this eviction, and IN THE STATE OF `p` the charge `wk`
+    was there and every entry stored under `wk.key` with id `id` had expired by its own deadline.  Contrapositive: an
+    entry that carries the id and is unexpired by its own deadline when the sweeper's `kw.remove … id` runs is never
+    reached by that eviction's `wu.sub` / `store.remove` — in no interleaving. -/
+theorem C09_layerB_eviction_passed_check {cfg : Cfg} {now0 : Nat} {seeds : List Nat} {clients : Nat}
+    {b0 b : BState} {h : List (BState × Act)} (hr : Reach cfg now0 seeds clients b0) (hrun : RunH b0 h b)
+    (h0 : b0.sw.victim? = none) {now sh id : Nat} {rest : List (Nat × Nat)} {wk : WKey}
+    (hsw : b.sw = .sub now sh rest id wk ∨ b.sw = .store now sh rest id wk) :
+    ∃ h1 p h2, h = h1 ++ p :: h2 ∧ (∃ v, p.2 = .sweeper v) ∧ p.1.sw = .kwRemove now sh rest id ∧
+      p.1.g.adm.kw.get? id = some wk ∧ unexpiredWithId p.1.g wk.key id = false ∧ p.1.g.now ≤ b.g.now ∧
+      ∀ e, p.1.g.store.get? wk.key = some e → e.id = id → ∃ t, e.expiry = some t ∧ p.1.g.now > t := by
+  have hinv := swB_chkInv_run hr hrun (swB_chkInv_start h0)
+  unfold swB_ChkInv at hinv
+  have key : ∀ n, swB_Checked h b now sh rest id wk n →
+      ∃ h1 p h2, h = h1 ++ p :: h2 ∧ (∃ v, p.2 = .sweeper v) ∧ p.1.sw = .kwRemove now sh rest id ∧
+        p.1.g.adm.kw.get? id = some wk ∧ unexpiredWithId p.1.g wk.key id = false ∧ p.1.g.now ≤ b.g.now ∧
+        ∀ e, p.1.g.store.get? wk.key = some e → e.id = id → ∃ t, e.expiry = some t ∧ p.1.g.now > t := by
+    rintro n ⟨_, _, h1, p, h2, rfl, hp, hpsw, hkw, hu, hnow, _, _⟩
+    refine ⟨h1, p, h2, rfl, ?_, hpsw, hkw, hu, hnow, (unexpiredWithId_eq_false_iff _ _ _).mp hu⟩
+    cases hpa : p.2 <;> simp_all [swB_isSweeper]
+  rcases hsw with hsw | hsw
+  · rw [hsw] at hinv; exact key 0 hinv
+  · rw [hsw] at hinv; exact key 1 hinv
+
+/-- **C09 (10), the FULL form (with the history, after fix 36c87dc).**  Along any run from a reachable state in which
+    the sweeper is not in the middle of an eviction: if a sweeper action changes the answer of a lookup of `k`, then
+    * it is the `store.remove` of the eviction of the id of `k`'s entry `e`, which is alive now and is removed (the
+      lookup found `e.value` before, finds nothing after), and
+    * the history is `h1 ++ p :: h2` with `p` the sweeper's own `kw.remove` action of this eviction, and IN THE STATE OF
+      `p` the store held under `k` an entry `e0` with the same id that HAD EXPIRED BY ITS OWN STORED DEADLINE (`t < now`
+      of `p`: a lookup at `p` missed it), and
+    * some `put_or_update(k)` performed its `upsert.update` action in `h1`, i.e. BETWEEN that check and this removal:
+      it rewrote the expired-but-unswept entry in place, under the same id (known finding D3).
+    Nothing else lets the sweeper hide a key.  In particular the deadline in the index plays no role any more: an
+    entry whose own deadline was ahead at the check is left alone (`C09_layerB_sweeper_never_hides_unexpired`). -/
+theorem C09_layerB_sweep_hides_only_revived {cfg : Cfg} {now0 : Nat} {seeds : List Nat} {clients : Nat}
+    {b0 b b' : BState} {h : List (BState × Act)} {v : Option Nat} {o o' : Oracle}
+    (hr : Reach cfg now0 seeds clients b0) (hrun : RunH b0 h b) (h0 : b0.sw.victim? = none)
+    (hs : stepB b (.sweeper v) o = .ok (b', o')) {k : Nat} (hch : expB_lookup b'.g k ≠ expB_lookup b.g k) :
+    ∃ now sh rest e wk, b.sw = .store now sh rest e.id wk ∧ wk.key = k ∧ b.g.store.get? k = some e ∧
+      e.alive b.g.now = true ∧ b'.g.store.get? k = none ∧ expB_lookup b.g k = some e.value ∧
+      expB_lookup b'.g k = none ∧
+      ∃ h1 p h2, h = h1 ++ p :: h2 ∧ (∃ v', p.2 = .sweeper v') ∧ p.1.sw = .kwRemove now sh rest e.id ∧
+        (∃ e0 t, p.1.g.store.get? k = some e0 ∧ e0.id = e.id ∧ e0.expiry = some t ∧ p.1.g.now > t) ∧
+        expB_lookup p.1.g k = none ∧
+        ∃ q ∈ h1, ∃ i v w ttl rm, q.2 = .client i ∧ q.1.cl[i]? = some (.upUpdate k v w ttl rm) := by
+  rcases (C09_layerB_sweep_irrelevant_for_reads (expB_reach_run hr hrun) hs k).2 with heq |
+    ⟨now, sh, rest, e, wk, hsw, hkey, _, hk, ha, _, hnone, hl, hl'⟩
+  · exact absurd heq hch
+  · subst hkey
+    have hlive : ∀ t, e.expiry = some t → ¬ b.g.now > t := fun t ht hgt => by
+      have := ((expB_alive_iff e _).mp ha).2 t ht; omega
+    obtain ⟨h1, p, h2, hh, hp, hpsw, ⟨e0, t, hk0, hid0, ht, hgt⟩, hq⟩ :=
+      C10_layerB_removes_unexpired_only_after_upsert hr hrun h0 hs hsw hk rfl hlive
+    refine ⟨now, sh, rest, e, wk, hsw, rfl, hk, ha, hnone, hl, hl', h1, p, h2, hh, hp, hpsw,
+      ⟨e0, t, hk0, hid0, ht, hgt⟩, ?_, hq⟩
+    have hdead : e0.alive p.1.g.now = false := by
+      cases hd : e0.alive p.1.g.now with
+      | false => rfl
+      | true => have := ((expB_alive_iff e0 _).mp hd).2 t ht; omega
+    simp [expB_lookup, hk0, hdead]
+
+/-- **… hence the naive form of (10) for a key nobody upserts**: along any run from a reachable state in which the
+    sweeper is not in the middle of an eviction and in which no `put_or_update` of `k` performed its `upsert.update`
+    action, NO sweeper action changes the answer of a lookup of `k` — the sweeper is irrelevant for the reads of `k`:
+    what it removes is what the lookups already miss. -/
+theorem C09_layerB_sweep_irrelevant_without_upsert {cfg : Cfg} {now0 : Nat} {seeds : List Nat} {clients : Nat}
+    {b0 b b' : BState} {h : List (BState × Act)} {v : Option Nat} {o o' : Oracle}
+    (hr : Reach cfg now0 seeds clients b0) (hrun : RunH b0 h b) (h0 : b0.sw.victim? = none)
+    (hs : stepB b (.sweeper v) o = .ok (b', o')) (k : Nat)
+    (hno : ¬ ∃ q ∈ h, ∃ i v w ttl rm, q.2 = .client i ∧ q.1.cl[i]? = some (.upUpdate k v w ttl rm)) :
+    expB_lookup b'.g k = expB_lookup b.g k := by
+  apply Classical.byContradiction
+  intro hch
+  obtain ⟨_, _, _, _, _, _, _, _, _, _, _, _, h1, p, h2, rfl, _, _, _, _, q, hq, hrest⟩ :=
+    C09_layerB_sweep_hides_only_revived hr hrun h0 hs hch
+  exact hno ⟨q, List.mem_append_left _ hq, hrest⟩
 
 /-! ## 6  concrete interleavings: non-vacuity, and the runs that refute the naive form of (10)
 
@@ -598,20 +735,100 @@ example : swB_at (call 0 (.putW 1 100 3 (some 5)) 4 ++ [(.advance 10, noO)] ++ w
      | .ok (b', _) => decide (b'.g.store.get? 1 = some ⟨100, 1, some 35, false⟩)
      | _ => false)) = true := by decide
 
-/-! ### the naive form of (10) is FALSE: two reachable states in which a sweeper action hides an ALIVE key -/
+/-! ### the sweeper and a `put_or_update` of the same key: the three races, after fix 36c87dc
 
-/-- **The "second race" of Sweep.lean, as a statement about reads.**  Key 1 (deadline 5) EXPIRES (clock 10); the
-    sweeper visits it, finds it due and starts the eviction; `put_or_update(1, ttl 1000)` — which updates the dead entry
-    in place instead of acting as a put, `Cached.C08_counterexample_expired` — moves the stored deadline to 1010: the
-    key reads as present again; the sweeper's `store.remove` then removes it (the id matches).  Before that sweeper
-    action a lookup finds 100, after it nothing. -/
+  The naive form of (10) — "a sweeper action never hides an alive key" — is still FALSE, but only in the way
+  `C09_layerB_sweep_hides_only_revived` says: `C09_layerB_sweep_removes_revived_key`.  The two other runs that used to
+  refute it no longer do: `C09_layerB_sweep_keeps_revived_key`, `C09_layerB_extension_race_keeps_key`. -/
+
+/-- key 1 (deadline 5) EXPIRES (clock 10); the sweeper visits it, finds the index entry due and stands at `kw.remove`;
+    THEN `put_or_update(1, ttl 1000)` does its `upsert.update`: stored deadline 1010 (the revival BEFORE the check) -/
+def expB_revivedBeforeCheck : List (Act × Oracle) :=
+  expB_setup ++ [(.advance 10, noO), (.sweeper none, noO), (.sweeper (some 1), noO)] ++
+  call 0 (.upsert 1 none none (some 1000) false) 2
+
+/-- **Non-vacuity of `C09_layerB_sweeper_never_hides_unexpired`, and the revival BEFORE the check.**  At the end of
+    `expB_revivedBeforeCheck` the sweeper stands at `kw.remove` of id 1, id 1 is charged for key 1, the entry stored
+    under key 1 carries id 1 and its own deadline 1010 is ahead of the clock 10 (the index entry `(0, 1) ↦ 5` is gone,
+    the upsert has not yet brought the index up to date): the hypotheses of the theorem.  The sweeper action moves on
+    to `sweep.end`; shared state unchanged. -/
+example : swB_at expB_revivedBeforeCheck (fun b =>
+    (match b.sw with | .kwRemove now sh rest id => decide (now = 10 ∧ sh = 0 ∧ rest = [] ∧ id = 1) | _ => false) &&
+    decide (b.g.now = 10 ∧ b.g.adm.kw.get? 1 = some ⟨1, 1, 3⟩ ∧ b.g.store.get? 1 = some ⟨100, 1, some 1010, false⟩ ∧
+            b.g.ttl = [] ∧ unexpiredWithId b.g 1 1 = true ∧ expB_lookup b.g 1 = some 100) &&
+    (match stepB b (.sweeper none) noO with
+     | .ok (b', _) =>
+       (match b'.sw with | .fin => true | _ => false) &&
+       decide (b'.g.store.get? 1 = some ⟨100, 1, some 1010, false⟩ ∧ b'.g.adm.kw.get? 1 = some ⟨1, 1, 3⟩ ∧
+               b'.g.adm.used = 3 ∧ b'.ttlOwner = none ∧ b'.wuOwner = none ∧ expB_lookup b'.g 1 = some 100)
+     | _ => false)) = true := by decide
+
+/-- **The "second race" of Sweep.lean with the revival BEFORE the check: the key is KEPT** (this is the run of the
+    former counterexample `C09_layerB_sweep_removes_revived_key`, on which the key was lost before fix 36c87dc).
+    Key 1 (deadline 5) expires (clock 10); the sweeper visits it and finds the index entry due; `put_or_update(1, ttl
+    1000)` — which updates the dead entry in place instead of acting as a put, `Cached.C08_counterexample_expired` —
+    moves the stored deadline to 1010: the key reads as present again; the sweeper's `kw.remove` re-validates against
+    the store, finds the stored value unexpired and SKIPS.  Before and after every later sweeper action (here: the
+    `sweep.begin` of the next sweep, two sweeper actions after the skip) a lookup finds 100; the key is stored and
+    charged.  The call then ends Accepted and the index holds `(0, 1) ↦ 1010`; a `get` returns 100. -/
+theorem C09_layerB_sweep_keeps_revived_key :
+    ∃ b b', Reach cfgEx 0 [1, 2, 3, 4] 2 b ∧ stepB b (.sweeper none) noO = .ok (b', noO) ∧
+      b.g.store.get? 1 = some ⟨100, 1, some 1010, false⟩ ∧ b.g.now = 10 ∧
+      expB_lookup b.g 1 = some 100 ∧ expB_lookup b'.g 1 = some 100 ∧
+      b'.g.store.get? 1 = some ⟨100, 1, some 1010, false⟩ ∧ b'.g.adm.kw.get? 1 = some ⟨1, 1, 3⟩ ∧ b'.g.adm.used = 3 ∧
+      (match runB b' ([(.sweeper none, noO), (.client 0, noO), (.client 0, noO), (.client 0, noO)] ++ call 1 (.get 1) 2 ++
+                      [(.client 1, { pool := [0] })]) with
+       | .ok b2 =>
+         decide (b2.g.now = 10 ∧ b2.g.store.get? 1 = some ⟨100, 1, some 1010, false⟩ ∧
+                 b2.g.acks = [.accepted, .accepted] ∧ b2.g.ttl = [((0, 1), 1010)] ∧
+                 b2.g.adm.kw.get? 1 = some ⟨1, 1, 3⟩ ∧ b2.g.adm.used = 3) &&
+         (match b2.res[0]?, b2.res[1]? with
+          | some (Out.ack h st :: _), some [Out.value r] => decide (h = 1 ∧ st = .accepted ∧ r = some 100)
+          | _, _ => false)
+       | .error _ => false) = true := by
+  have hrun : ∃ b, runB (BState.init cfgEx 0 [1, 2, 3, 4] 2) (expB_revivedBeforeCheck ++
+        [(.sweeper none, noO), (.sweeper none, noO)]) = .ok b ∧
+      ∃ b', stepB b (.sweeper none) noO = .ok (b', noO) ∧
+      b.g.store.get? 1 = some ⟨100, 1, some 1010, false⟩ ∧ b.g.now = 10 ∧
+      expB_lookup b.g 1 = some 100 ∧ expB_lookup b'.g 1 = some 100 ∧
+      b'.g.store.get? 1 = some ⟨100, 1, some 1010, false⟩ ∧ b'.g.adm.kw.get? 1 = some ⟨1, 1, 3⟩ ∧ b'.g.adm.used = 3 ∧
+      (match runB b' ([(.sweeper none, noO), (.client 0, noO), (.client 0, noO), (.client 0, noO)] ++ call 1 (.get 1) 2 ++
+                      [(.client 1, { pool := [0] })]) with
+       | .ok b2 =>
+         decide (b2.g.now = 10 ∧ b2.g.store.get? 1 = some ⟨100, 1, some 1010, false⟩ ∧
+                 b2.g.acks = [.accepted, .accepted] ∧ b2.g.ttl = [((0, 1), 1010)] ∧
+                 b2.g.adm.kw.get? 1 = some ⟨1, 1, 3⟩ ∧ b2.g.adm.used = 3) &&
+         (match b2.res[0]?, b2.res[1]? with
+          | some (Out.ack h st :: _), some [Out.value r] => decide (h = 1 ∧ st = .accepted ∧ r = some 100)
+          | _, _ => false)
+       | .error _ => false) = true := by
+    refine ⟨_, rfl, _, rfl, ?_⟩
+    decide
+  obtain ⟨b, hr, b', hs, hrest⟩ := hrun
+  exact ⟨b, b', expB_reach_run' hr, hs, hrest⟩
+
+/-- the revival BETWEEN the check and the removal: key 1 (deadline 5) expires (clock 10); the sweeper visits it, and its
+    `kw.remove` finds the stored value expired by its own deadline (5 < 10): the charge goes; THEN `put_or_update(1, ttl
+    1000)` does its `upsert.update` (stored deadline 1010); the sweeper's `wu.sub` -/
+def expB_revivedAfterCheck : List (Act × Oracle) :=
+  expB_setup ++ [(.advance 10, noO), (.sweeper none, noO), (.sweeper (some 1), noO),
+    (.sweeper none, noO)] ++                                   -- `kw.remove`: the check, at which the entry IS expired
+  call 0 (.upsert 1 none none (some 1000) false) 2 ++          -- `upsert.update` at clock 10: stored deadline 5 → 1010
+  [(.sweeper none, noO)]                                        -- `wu.sub`
+
+/-- **The revival between the check and the removal still loses the key (known finding D3), as a statement about
+    reads.**  Key 1 (deadline 5) EXPIRES (clock 10); the sweeper visits it, finds it due, and its `kw.remove` takes the
+    charge out — the stored value HAD expired by its own deadline; `put_or_update(1, ttl 1000)` — which updates the dead
+    entry in place instead of acting as a put, `Cached.C08_counterexample_expired` — moves the stored deadline to 1010:
+    the key reads as present again; the sweeper's `store.remove` then removes it (the id matches).  Before that sweeper
+    action a lookup finds 100, after it nothing.  This is the one exception `C09_layerB_sweep_hides_only_revived`
+    leaves.  (The statement is the one this theorem had before fix 36c87dc; its former witness — the revival before
+    the check — is now `C09_layerB_sweep_keeps_revived_key`.) -/
 theorem C09_layerB_sweep_removes_revived_key :
     ∃ b b', Reach cfgEx 0 [1, 2, 3, 4] 2 b ∧ stepB b (.sweeper none) noO = .ok (b', noO) ∧
       b.g.store.get? 1 = some ⟨100, 1, some 1010, false⟩ ∧ b.g.now = 10 ∧
       expB_lookup b.g 1 = some 100 ∧ expB_lookup b'.g 1 = none ∧ b'.g.store.get? 1 = none := by
-  have hrun : ∃ b, runB (BState.init cfgEx 0 [1, 2, 3, 4] 2) (expB_setup ++
-        [(.advance 10, noO), (.sweeper none, noO), (.sweeper (some 1), noO)] ++
-        call 0 (.upsert 1 none none (some 1000) false) 2 ++ [(.sweeper none, noO), (.sweeper none, noO)]) = .ok b ∧
+  have hrun : ∃ b, runB (BState.init cfgEx 0 [1, 2, 3, 4] 2) expB_revivedAfterCheck = .ok b ∧
       ∃ b', stepB b (.sweeper none) noO = .ok (b', noO) ∧
       b.g.store.get? 1 = some ⟨100, 1, some 1010, false⟩ ∧ b.g.now = 10 ∧
       expB_lookup b.g 1 = some 100 ∧ expB_lookup b'.g 1 = none ∧ b'.g.store.get? 1 = none := by
@@ -620,80 +837,146 @@ theorem C09_layerB_sweep_removes_revived_key :
   obtain ⟨b, hr, b', hs, hrest⟩ := hrun
   exact ⟨b, b', expB_reach_run' hr, hs, hrest⟩
 
-/-- the run of the finding below, up to the sweeper's `store.remove` -/
+/-- … on that run the entry WAS expired by its own deadline at the check (a lookup missed it), as
+    `C09_layerB_sweep_hides_only_revived` says: the state in which the sweeper's `kw.remove` ran -/
+example : swB_at (expB_setup ++ [(.advance 10, noO), (.sweeper none, noO), (.sweeper (some 1), noO)]) (fun b =>
+    (match b.sw with | .kwRemove now _ _ id => decide (now = 10 ∧ id = 1) | _ => false) &&
+    decide (b.g.store.get? 1 = some ⟨100, 1, some 5, false⟩ ∧ b.g.now = 10 ∧ unexpiredWithId b.g 1 1 = false ∧
+            expB_lookup b.g 1 = none)) = true := by decide
+
+/-- the run of the former finding D13, up to where the sweeper's `store.remove` stood before fix 36c87dc (the run is
+    UNCHANGED; what its last two sweeper actions are has changed) -/
 def expB_extensionRace : List (Act × Oracle) :=
   expB_setup ++ [(.advance 4, noO)] ++
   call 0 (.upsert 1 none none (some 1000) false) 2 ++     -- `upsert.update` at clock 4: stored deadline 5 → 1004
   [(.advance 6, noO),                                     -- the clock passes the OLD deadline: clock 10
    (.sweeper none, noO), (.sweeper (some 1), noO),        -- `sweep.begin`, visit of id 1: the INDEX still says 5: due
-   (.sweeper none, noO), (.sweeper none, noO)]            -- `kw.remove`, `wu.sub`
+   (.sweeper none, noO), (.sweeper none, noO)]            -- `kw.remove`: the stored deadline 1004 is ahead: SKIP, on to
+                                                          -- `sweep.end` (was: charge out, `wu.sub`); `sweep.end`
 
-/-- **FINDING — extending a time-to-live shortly before the old deadline can lose the key.**
+/-- **D13 REPAIRED — extending a time-to-live shortly before the old deadline no longer loses the key**
+    (replaces the finding `C09_layerB_extension_race_loses_key`; the run is the same).
     Key 1 has deadline 5.  At clock 4 — the key is alive — client 0 calls `put_or_update(1, time_to_live 1000)`; its
     `upsert.update` action writes the new deadline 1004 into the stored entry; the expiry index is brought up to date
     only by later actions of the same call (`ttl.update.remove`, `ttl.update.insert`).  Before they run the clock
     passes the OLD deadline (clock 10) and the sweeper sweeps the shard: at its visit the index still holds
-    `(0, 1) ↦ 5`, which is due, so it evicts id 1 — index entry, charge, and (the id matches) the stored entry.
-    The entry was alive AT EVERY MOMENT (stored deadline 5 until clock 4, 1004 from then on; `expB_lookup = some 100`
-    right before the sweeper's `store.remove`), and after that action the key is physically gone: every read reports
-    absent at clock 10, long before the deadline 1004 the caller asked for.  The call itself then completes its index
-    update against the removed id and returns an Accepted acknowledgement; the index is left with an entry
-    `(0, 1) ↦ 1004` for an id that no longer exists.
-    This refutes, for interleavings, C09's "changing the time-to-live moves that deadline accordingly / a key is never
-    hidden while the clock is before its deadline" (and the naive `sweep_irrelevant_for_reads`): the ticker trusts the
-    deadline in its index and `delete_if_key_id_matches` checks the id only, not the stored value's current deadline.
-    What remains true is `C09_layerB_sweep_removes_only_visited_due`. -/
-theorem C09_layerB_extension_race_loses_key :
+    `(0, 1) ↦ 5`, which is due, so it takes the index entry out and goes on to `kw.remove` of id 1.  There the ticker
+    now re-validates against the store (fix 36c87dc): the value stored under key 1 carries id 1 and its own deadline
+    1004 is ahead — `C09_layerB_sweeper_never_hides_unexpired` — so it leaves the key alone and ends the sweep.
+    After the run, and after one more sweeper action (`b → b'`: the `sweep.begin` of the next sweep, where before the
+    fix the `store.remove` stood): the key is still stored with deadline 1004, still charged (weight 3, total 3), a
+    lookup still finds 100.  The rest of the two calls: the extension completes its index update and is acknowledged
+    Accepted, the index ends with `(0, 1) ↦ 1004` — now for an id that EXISTS —, and a `get(1)` returns 100. -/
+theorem C09_layerB_extension_race_keeps_key :
     ∃ b b', Reach cfgEx 0 [1, 2, 3, 4] 2 b ∧ stepB b (.sweeper none) noO = .ok (b', noO) ∧
       b.g.now = 10 ∧ b.g.store.get? 1 = some ⟨100, 1, some 1004, false⟩ ∧      -- alive: 10 ≤ 1004
       expB_lookup b.g 1 = some 100 ∧                                            -- a lookup finds it …
-      b'.g.store.get? 1 = none ∧ expB_lookup b'.g 1 = none ∧ b'.g.now = 10 ∧    -- … and after the sweeper's action does not
-      -- the rest of the two calls: the extension is acknowledged Accepted, a `get` returns `None`
-      (match runB b' ([(.sweeper none, noO), (.client 0, noO), (.client 0, noO), (.client 0, noO)] ++ call 1 (.get 1) 2) with
+      b'.g.store.get? 1 = some ⟨100, 1, some 1004, false⟩ ∧                     -- … and still does after the sweeper's action
+      expB_lookup b'.g 1 = some 100 ∧ b'.g.now = 10 ∧
+      b'.g.adm.kw.get? 1 = some ⟨1, 1, 3⟩ ∧ b'.g.adm.used = 3 ∧                 -- still charged
+      -- the rest of the two calls: the extension is acknowledged Accepted, a `get` returns the value
+      (match runB b' ([(.sweeper none, noO), (.client 0, noO), (.client 0, noO), (.client 0, noO)] ++ call 1 (.get 1) 2 ++
+                      [(.client 1, { pool := [0] })]) with
        | .ok b2 =>
-         decide (b2.g.now = 10 ∧ b2.g.store.get? 1 = none ∧ b2.g.acks = [.accepted, .accepted] ∧
-                 b2.g.ttl = [((0, 1), 1004)] ∧ b2.g.adm.kw = [] ∧ b2.g.adm.used = 0) &&
-         (match b2.res[0]?, b2.res[1]? with
-          | some (Out.ack h st :: _), some [Out.value r] => decide (h = 1 ∧ st = .accepted ∧ r = none)
-          | _, _ => false)
+         decide (b2.g.now = 10 ∧ b2.g.store.get? 1 = some ⟨100, 1, some 1004, false⟩ ∧
+                 b2.g.acks = [.accepted, .accepted] ∧ b2.g.ttl = [((0, 1), 1004)] ∧
+                 b2.g.adm.kw.get? 1 = some ⟨1, 1, 3⟩ ∧ b2.g.adm.used = 3 ∧ expB_lookup b2.g 1 = some 100) &&
+         (match b2.cl[0]?, b2.res[0]?, b2.res[1]? with
+          | some CPc.idle, some (Out.ack h st :: _), some [Out.value r] => decide (h = 1 ∧ st = .accepted ∧ r = some 100)
+          | _, _, _ => false)
        | .error _ => false) = true := by
   have hrun : ∃ b, runB (BState.init cfgEx 0 [1, 2, 3, 4] 2) expB_extensionRace = .ok b ∧
       ∃ b', stepB b (.sweeper none) noO = .ok (b', noO) ∧
       b.g.now = 10 ∧ b.g.store.get? 1 = some ⟨100, 1, some 1004, false⟩ ∧ expB_lookup b.g 1 = some 100 ∧
-      b'.g.store.get? 1 = none ∧ expB_lookup b'.g 1 = none ∧ b'.g.now = 10 ∧
-      (match runB b' ([(.sweeper none, noO), (.client 0, noO), (.client 0, noO), (.client 0, noO)] ++ call 1 (.get 1) 2) with
+      b'.g.store.get? 1 = some ⟨100, 1, some 1004, false⟩ ∧ expB_lookup b'.g 1 = some 100 ∧ b'.g.now = 10 ∧
+      b'.g.adm.kw.get? 1 = some ⟨1, 1, 3⟩ ∧ b'.g.adm.used = 3 ∧
+      (match runB b' ([(.sweeper none, noO), (.client 0, noO), (.client 0, noO), (.client 0, noO)] ++ call 1 (.get 1) 2 ++
+                      [(.client 1, { pool := [0] })]) with
        | .ok b2 =>
-         decide (b2.g.now = 10 ∧ b2.g.store.get? 1 = none ∧ b2.g.acks = [.accepted, .accepted] ∧
-                 b2.g.ttl = [((0, 1), 1004)] ∧ b2.g.adm.kw = [] ∧ b2.g.adm.used = 0) &&
-         (match b2.res[0]?, b2.res[1]? with
-          | some (Out.ack h st :: _), some [Out.value r] => decide (h = 1 ∧ st = .accepted ∧ r = none)
-          | _, _ => false)
+         decide (b2.g.now = 10 ∧ b2.g.store.get? 1 = some ⟨100, 1, some 1004, false⟩ ∧
+                 b2.g.acks = [.accepted, .accepted] ∧ b2.g.ttl = [((0, 1), 1004)] ∧
+                 b2.g.adm.kw.get? 1 = some ⟨1, 1, 3⟩ ∧ b2.g.adm.used = 3 ∧ expB_lookup b2.g 1 = some 100) &&
+         (match b2.cl[0]?, b2.res[0]?, b2.res[1]? with
+          | some CPc.idle, some (Out.ack h st :: _), some [Out.value r] => decide (h = 1 ∧ st = .accepted ∧ r = some 100)
+          | _, _, _ => false)
        | .error _ => false) = true := by
     refine ⟨_, rfl, _, rfl, ?_⟩
     decide
   obtain ⟨b, hr, b', hs, hrest⟩ := hrun
   exact ⟨b, b', expB_reach_run' hr, hs, hrest⟩
 
-/-- the entry was alive at every state of that run in which it was stored: at no point did a lookup miss it before the
-    sweeper's `store.remove` (checked after every prefix of the run from the moment the key is in) -/
+/-- the state of that run in which the sweeper's `kw.remove` action runs: the hypotheses of
+    `C09_layerB_sweeper_never_hides_unexpired` (the sweeper at `kw.remove` of id 1, id 1 charged for key 1, the entry
+    stored under key 1 carries id 1 and the deadline 1004 ≥ clock 10) — the index entry `(0, 1) ↦ 5` has just been
+    taken out, client 0 stands before its index update — and its conclusion: on to `sweep.end`, nothing else changes -/
+example : swB_at (expB_extensionRace.take (expB_extensionRace.length - 2)) (fun b =>
+    (match b.sw, b.cl[0]? with
+     | .kwRemove now sh rest id, some (CPc.upWeightOf cid uw old new) =>
+       decide (now = 10 ∧ sh = 0 ∧ rest = [] ∧ id = 1 ∧ cid = 1 ∧ uw = none ∧ old = some 5 ∧ new = some 1004)
+     | _, _ => false) &&
+    decide (b.g.now = 10 ∧ b.g.adm.kw.get? 1 = some ⟨1, 1, 3⟩ ∧ b.g.store.get? 1 = some ⟨100, 1, some 1004, false⟩ ∧
+            b.g.ttl = [] ∧ unexpiredWithId b.g 1 1 = true) &&
+    (match stepB b (.sweeper none) noO with
+     | .ok (b', _) =>
+       (match b'.sw with | .fin => true | _ => false) &&
+       decide (b'.g.store = b.g.store ∧ b'.g.adm.kw = b.g.adm.kw ∧ b'.g.adm.used = b.g.adm.used ∧ b'.g.ttl = b.g.ttl ∧
+               b'.ttlOwner = none ∧ b'.wuOwner = none)
+     | _ => false)) = true := by decide
+
+/-- the entry is alive at every state of that run in which it is stored, and to the end of the two calls: at no point
+    does a lookup miss it (checked after every prefix of the run from the moment the key is in) -/
 example : (List.range (expB_extensionRace.length - expB_setup.length + 1)).all (fun n =>
     swB_at (expB_extensionRace.take (expB_setup.length + n)) (fun b => decide (expB_lookup b.g 1 = some 100))) = true := by
   decide
 
-/-- **Non-vacuity of `C09_layerB_sweep_irrelevant_for_reads` (second disjunct) and of
-    `C09_layerB_sweep_removes_only_visited_due`**: that run, as a history from the initial state; the last sweeper
-    action changes the answer of a lookup of key 1. -/
+example : (List.range 6).all (fun n =>
+    swB_at (expB_extensionRace ++ ([(.sweeper none, noO), (.sweeper none, noO), (.client 0, noO), (.client 0, noO),
+        (.client 0, noO)]).take n) (fun b => decide (expB_lookup b.g 1 = some 100))) = true := by
+  decide
+
+/-- **Non-vacuity of `C09_layerB_sweep_irrelevant_for_reads` (second disjunct), of
+    `C09_layerB_sweep_removes_only_visited_due` and of `C09_layerB_sweep_hides_only_revived`**: the run
+    `expB_revivedAfterCheck`, as a history from the initial state; the last sweeper action changes the answer of a
+    lookup of key 1. -/
 theorem C09_layerB_sweep_visited_due_witness :
     ∃ h b b', RunH (BState.init cfgEx 0 [1, 2, 3, 4] 2) h b ∧
       Reach cfgEx 0 [1, 2, 3, 4] 2 (BState.init cfgEx 0 [1, 2, 3, 4] 2) ∧
       expB_SwInv [] (BState.init cfgEx 0 [1, 2, 3, 4] 2).sw ∧
+      (BState.init cfgEx 0 [1, 2, 3, 4] 2).sw.victim? = none ∧
       stepB b (.sweeper none) noO = .ok (b', noO) ∧ expB_lookup b'.g 1 ≠ expB_lookup b.g 1 := by
-  have hh : ∃ h b, histOf (BState.init cfgEx 0 [1, 2, 3, 4] 2) expB_extensionRace [] = .ok (h, b) ∧
+  have hh : ∃ h b, histOf (BState.init cfgEx 0 [1, 2, 3, 4] 2) expB_revivedAfterCheck [] = .ok (h, b) ∧
       ∃ b', stepB b (.sweeper none) noO = .ok (b', noO) ∧ expB_lookup b.g 1 = some 100 ∧ expB_lookup b'.g 1 = none :=
     ⟨_, _, rfl, _, rfl, by decide, by decide⟩
   obtain ⟨h, b, hrun, b', hs, h1, h2⟩ := hh
-  refine ⟨h, b, b', runH_histOf _ (.nil _) hrun, expB_reach_run' (l := []) rfl, trivial, hs, ?_⟩
+  refine ⟨h, b, b', runH_histOf _ (.nil _) hrun, expB_reach_run' (l := []) rfl, trivial, rfl, hs, ?_⟩
   rw [h1, h2]; exact fun e => by cases e
+
+/-- the variant of `expB_noUpdate_spec` without the stored entry -/
+theorem expB_noUpdate_spec' {k : Nat} {h : List (BState × Act)} (hn : expB_noUpdate k h = true) :
+    ¬ ∃ q ∈ h, ∃ i v w ttl rm, q.2 = .client i ∧ q.1.cl[i]? = some (.upUpdate k v w ttl rm) := by
+  rintro ⟨p, hp, i, v, w, ttl, rm, ha, hpc⟩
+  have := List.all_eq_true.mp hn p hp
+  simp only [ha, hpc] at this
+  simp at this
+
+/-- **Non-vacuity of `C09_layerB_eviction_passed_check` and `C09_layerB_sweep_irrelevant_without_upsert`**: the ordinary
+    eviction of the expired key 1 (no `put_or_update` anywhere in the run), as a history from the initial state: the
+    sweeper stands at `store.remove` of id 1, a lookup misses the key before and after the removal. -/
+theorem C09_layerB_sweep_without_upsert_witness :
+    ∃ h b b', RunH (BState.init cfgEx 0 [1, 2, 3, 4] 2) h b ∧
+      Reach cfgEx 0 [1, 2, 3, 4] 2 (BState.init cfgEx 0 [1, 2, 3, 4] 2) ∧
+      (BState.init cfgEx 0 [1, 2, 3, 4] 2).sw.victim? = none ∧
+      b.sw = .store 10 0 [] 1 ⟨1, 1, 3⟩ ∧ b.g.store.get? 1 = some ⟨100, 1, some 5, false⟩ ∧
+      stepB b (.sweeper none) noO = .ok (b', noO) ∧ b'.g.store.get? 1 = none ∧
+      ¬ ∃ q ∈ h, ∃ i v w ttl rm, q.2 = .client i ∧ q.1.cl[i]? = some (.upUpdate 1 v w ttl rm) := by
+  have hh : ∃ h b, histOf (BState.init cfgEx 0 [1, 2, 3, 4] 2) (expB_setup ++ [(.advance 10, noO), (.sweeper none, noO),
+        (.sweeper (some 1), noO), (.sweeper none, noO), (.sweeper none, noO)]) [] = .ok (h, b) ∧
+      b.sw = .store 10 0 [] 1 ⟨1, 1, 3⟩ ∧ b.g.store.get? 1 = some ⟨100, 1, some 5, false⟩ ∧
+      (∃ b', stepB b (.sweeper none) noO = .ok (b', noO) ∧ b'.g.store.get? 1 = none) ∧ expB_noUpdate 1 h = true :=
+    ⟨_, _, rfl, rfl, by decide, ⟨_, rfl, by decide⟩, by decide⟩
+  obtain ⟨h, b, hrun, h1, h2, ⟨b', hs, h3⟩, hno⟩ := hh
+  exact ⟨h, b, b', runH_histOf _ (.nil _) hrun, expB_reach_run' (l := []) rfl, rfl, h1, h2, hs, h3,
+    expB_noUpdate_spec' hno⟩
 
 end B
 end Cached
